@@ -61,7 +61,7 @@ theorem paused_stays_pausedX (srt : Sorter) (sp : Spec) (w : World) (ev : Event)
           · split
             · exact hp
             · split
-              · exact hp
+              · rw [(checkAffected_tasks sp _ t).2]; exact hp
               · split <;> exact hp
       | rpcResult t ok =>
         simp only
